@@ -604,6 +604,7 @@ func (cl *Client) WritePacket(pk packets.Packet) error {
 		return packets.ErrPacketTooLarge // [MQTT-3.1.2-24] [MQTT-3.1.2-25]
 	}
 
+	verifPoint("write.beforeLock") // schedule point (verif build tag)
 	n, err := func() (int64, error) {
 		cl.Lock()
 		defer cl.Unlock()
